@@ -136,5 +136,6 @@ fn main() {
         }
         _ => usage(),
     };
+    props::remove_loader_dir();
     std::process::exit(code);
 }
